@@ -7,6 +7,12 @@
 //!            r  the port is closed (connection refused)
 //!            c  the peer accepts and closes at once (tcp: a lost connection; tls: a failed handshake)
 //!            s  the peer accepts, serves one request, then closes (tcp only)
+//!   variant  rtu   the REAL `spawn_rtu_client_task` on a pty (libc::openpty); script letters:
+//!            r  the device path does not exist (open fails)
+//!            o  the port opens, then the pty master is closed (the session is lost)
+//!            (PortState has no Connecting: the Listener holds the task at every Wait(d) announcement
+//!            until the next outcome is prepared, the delay is measured from the release of that
+//!            hold to the next announcement, which directly follows the next open attempt)
 //! The Listener records every ClientState with a monotonic time stamp and holds the task at every
 //! `Connecting` announcement until the scripted peer is ready for the next attempt.
 //! output line: one field per announced wait, ','-separated:  <F|D><delay in ns><+|-|?>
@@ -41,6 +47,170 @@ impl Listener<ClientState> for Gate {
     }
 }
 
+enum PortEv {
+    State(PortState, Instant),
+    Released(Instant),
+}
+
+struct PortGate {
+    events: mpsc::UnboundedSender<PortEv>,
+    permits: std::sync::Arc<tokio::sync::Mutex<mpsc::Receiver<()>>>,
+}
+
+impl Listener<PortState> for PortGate {
+    fn update(&mut self, value: PortState) -> MaybeAsync<()> {
+        let _ = self.events.send(PortEv::State(value, Instant::now()));
+        if let PortState::Wait(_) = value {
+            let permits = self.permits.clone();
+            let events = self.events.clone();
+            MaybeAsync::asynchronous(async move {
+                let _ = permits.lock().await.recv().await;
+                let _ = events.send(PortEv::Released(Instant::now()));
+            })
+        } else {
+            MaybeAsync::ready(())
+        }
+    }
+}
+
+struct Pty {
+    master: i32,
+    slave: i32,
+    path: String,
+}
+
+impl Pty {
+    fn open() -> Option<Pty> {
+        let mut master = 0;
+        let mut slave = 0;
+        let mut name = [0 as libc::c_char; 256];
+        let rc = unsafe { libc::openpty(&mut master, &mut slave, name.as_mut_ptr(), std::ptr::null(), std::ptr::null()) };
+        if rc != 0 {
+            return None;
+        }
+        let path = unsafe { std::ffi::CStr::from_ptr(name.as_ptr()) }.to_string_lossy().to_string();
+        Some(Pty { master, slave, path })
+    }
+    fn close(self) {
+        unsafe {
+            libc::close(self.slave);
+            libc::close(self.master);
+        }
+    }
+}
+
+async fn rtu_scenario(min: Duration, max: Duration, script: &str, n: usize) -> String {
+    let dir = std::env::temp_dir().join(format!("verif-pty-{}-{}", std::process::id(), n));
+    let _ = std::fs::create_dir_all(&dir);
+    let link = dir.join("port");
+    let _ = std::fs::remove_file(&link);
+    let (ev_tx, mut ev_rx) = mpsc::unbounded_channel();
+    let (permit_tx, permit_rx) = mpsc::channel::<()>(1);
+    let gate = PortGate { events: ev_tx, permits: std::sync::Arc::new(tokio::sync::Mutex::new(permit_rx)) };
+    let mut pty: Option<Pty> = None;
+    let mut outcomes = script.chars();
+    // prepare the first outcome before the task makes its first attempt
+    let prepare = |o: Option<char>, pty: &mut Option<Pty>| -> bool {
+        let _ = std::fs::remove_file(&link);
+        if let Some(p) = pty.take() {
+            p.close();
+        }
+        if o == Some('o') {
+            match Pty::open() {
+                Some(p) => {
+                    if std::os::unix::fs::symlink(&p.path, &link).is_err() {
+                        return false;
+                    }
+                    *pty = Some(p);
+                }
+                None => return false,
+            }
+        }
+        true
+    };
+    let mut current = outcomes.next();
+    if !prepare(current, &mut pty) {
+        return "NOPTY".to_string();
+    }
+    let channel = spawn_rtu_client_task(
+        link.to_str().unwrap(),
+        SerialSettings::default(),
+        4,
+        doubling_retry_strategy(min, max),
+        DecodeLevel::nothing(),
+        Some(Box::new(gate)),
+    );
+    let _ = channel.enable().await;
+    let limit = max + Duration::from_secs(4);
+    let mut out: Vec<String> = Vec::new();
+    let mut pending: Option<(Duration, Instant, usize)> = None; // (announced delay, release time, index in out)
+    loop {
+        let ev = match tokio::time::timeout(limit, ev_rx.recv()).await {
+            Ok(Some(e)) => e,
+            _ => break,
+        };
+        match ev {
+            PortEv::Released(t) => {
+                if let Some(p) = pending.as_mut() {
+                    p.1 = t;
+                }
+            }
+            PortEv::State(state, t) => {
+                match state {
+                    PortState::Open | PortState::Wait(_) => {
+                        // this announcement directly follows the open attempt that ended the pending wait
+                        if let Some((d, rel, ix)) = pending.take() {
+                            out[ix].push(if t.duration_since(rel) >= d { '+' } else { '-' });
+                        }
+                    }
+                    _ => {}
+                }
+                match state {
+                    PortState::Open => {
+                        if current != Some('o') {
+                            return format!("UNEXPECTED-OPEN:{}", out.join(","));
+                        }
+                        // lose the session: close the pty (the next outcome is prepared at the Wait announcement)
+                        let _ = std::fs::remove_file(&link);
+                        if let Some(p) = pty.take() {
+                            p.close();
+                        }
+                    }
+                    PortState::Wait(d) => {
+                        let kind = if current == Some('o') { 'D' } else { 'F' };
+                        out.push(format!("{kind}{}", d.as_nanos()));
+                        pending = Some((d, Instant::now(), out.len() - 1));
+                        let had = current.is_some();
+                        current = outcomes.next();
+                        if !had {
+                            // the wait after the script's end has been observed: stop here
+                            out.pop();
+                            let _ = permit_tx.send(()).await;
+                            break;
+                        }
+                        if !prepare(current, &mut pty) {
+                            return "NOPTY".to_string();
+                        }
+                        let _ = permit_tx.send(()).await;
+                    }
+                    _ => {}
+                }
+            }
+        }
+    }
+    let _ = channel.shutdown().await;
+    if let Some(p) = pty.take() {
+        p.close();
+    }
+    let _ = std::fs::remove_dir_all(&dir);
+    for f in out.iter_mut() {
+        if !f.ends_with('+') && !f.ends_with('-') {
+            f.push('?');
+        }
+    }
+    out.join(",")
+}
+
 async fn bind(addr: SocketAddr) -> Option<TcpListener> {
     for _ in 0..50 {
         if let Ok(l) = TcpListener::bind(addr).await {
@@ -51,7 +221,7 @@ async fn bind(addr: SocketAddr) -> Option<TcpListener> {
     None
 }
 
-async fn scenario(line: String, ip: Ipv4Addr) -> String {
+async fn scenario(line: String, ip: Ipv4Addr, n: usize) -> String {
     let parts: Vec<&str> = line.split_whitespace().collect();
     if parts.len() < 3 {
         return "BADLINE".to_string();
@@ -60,6 +230,9 @@ async fn scenario(line: String, ip: Ipv4Addr) -> String {
     let min = Duration::from_millis(parts[1].parse().unwrap());
     let max = Duration::from_millis(parts[2].parse().unwrap());
     let script = parts.get(3).copied().unwrap_or("");
+    if variant == "rtu" {
+        return rtu_scenario(min, max, script, n).await;
+    }
     // reserve a port number on this scenario's own loopback address
     let port = std::net::TcpListener::bind((ip, 0)).unwrap().local_addr().unwrap().port();
     let addr = SocketAddr::from((ip, port));
@@ -199,7 +372,7 @@ pub fn main(_args: &[String]) -> i32 {
         let mut handles = Vec::new();
         for (n, line) in lines.into_iter().enumerate() {
             let ip = Ipv4Addr::new(127, 1 + (pid % 200) as u8, (n / 250 % 250) as u8, (n % 250 + 1) as u8);
-            handles.push(tokio::spawn(scenario(line, ip)));
+            handles.push(tokio::spawn(scenario(line, ip, n)));
         }
         let mut res = Vec::new();
         for h in handles {
